@@ -16,4 +16,5 @@ CONSTANTS
   FixDeriveGuards = TRUE
   FixLateTrack = TRUE
   FixDeleteOnAccept = FALSE
+  FixStoreOnAccept = FALSE
 INVARIANTS Listed
